@@ -186,6 +186,43 @@ def rule_N(ck, lib, sk, rid):
     delivers a `Value::String` or `Value::Arbitrary`. Any other one would answer a *complete* message (one that leaves no
     string or block open) with Incomplete - no error reported, the message and everything behind it waits for more."""
     n = 0
+    # who applies whom (parser functions only)
+    callers = {}
+    for p, f in sk.fns.items():
+        for x in f["exits"]:
+            for (pid, inp, t, oc) in sk.apps_on_path(x, f["ps"]):
+                q = pid
+                while q and q[0] == "optional" and q[1]:
+                    q = q[1]
+                if q and q[0] in ("fn", "factory"):
+                    callers.setdefault(q[1], set()).add(p)
+
+    def delivered(p):
+        out = set()
+        for x in sk.fns[p]["exits"]:
+            c, v = value_ctor(sk, x)
+            r = sk.exit_result(x)
+            if r and r[0][0] == "ok":
+                out.add(c or "?")
+        return out
+
+    def value_makers(p, seen):
+        """the recognisers of program data that `p` is (part of): p itself when it builds a Value, else the parser functions
+        that apply it, transitively (a private helper such as `the header of a block` belongs to what uses it)"""
+        if p in seen:
+            return set()
+        seen.add(p)
+        d = delivered(p)
+        if d - {"?"}:
+            return {p}
+        ups = callers.get(p, set())
+        if not ups:
+            return {p}
+        out = set()
+        for u in ups:
+            out |= value_makers(u, seen)
+        return out
+
     for p, f in sorted(sk.fns.items()):
         if f["kind"] != "direct":
             continue
@@ -193,12 +230,10 @@ def rule_N(ck, lib, sk, rid):
         if not why:
             continue
         n += 1
+        makers = value_makers(p, set())
         ctors = set()
-        for x in f["exits"]:
-            c, v = value_ctor(sk, x)
-            r = sk.exit_result(x)
-            if r and r[0][0] == "ok":
-                ctors.add(c or "?")
+        for m_ in makers:
+            ctors |= delivered(m_)
         ck.judge(ctors and ctors <= {"String", "Arbitrary"}, rid, "nt-leaf#%d:%s" % (n, "+".join(sorted(ctors))), "%s runs across newlines (%s) and delivers %s" % (p.split("::")[-1], ", ".join(why), sorted(ctors)),
                  "%s can run across a newline (%s) but delivers %s: program data other than a string or block that contains the terminator byte leaves a complete message unanswered (Incomplete)"
                  % (p.split("::")[-1], ", ".join(why), sorted(ctors) or "no value"), loc=f.get("loc"))
